@@ -108,44 +108,6 @@ def runOld (g : Geom) : St K → List (Op K) → St K × List (Obs K)
     let rs := runOld g r.1 ops
     (rs.1, r.2 :: rs.2)
 
-/-! ### the noisy detector -/
-
-/-- Noise configuration of a `NoisyDetector` with photon noise switched off: dark-current rate,
-flat-field map (one factor per pixel), read-noise rms, and the standard-normal draws the
-`k`-th read-out would use (`np.random.normal(0, σ) = σ·z`). -/
-structure Noise (K : Type) where
-  dark : K
-  flat : List K
-  sigma : K
-  draws : Nat → List K
-
-structure NSt (K : Type) where
-  acc : Option (List K) := none
-  nread : Nat := 0
-
-def nIntegrate (g : Geom) (nz : Noise K) (st : NSt K) (p : List K) (dt w : K) : NSt K × Obs K :=
-  if p.length = g.ninput then
-    let a1 := accAdd st.acc (charge (binND g.s g.dims p) dt w)
-    ({ st with acc := some (a1.map (· + nz.dark * dt * w)) }, .done)
-  else (st, .refused)
-
-def nReadOut (g : Geom) (nz : Noise K) (st : NSt K) : NSt K × Obs K :=
-  let out := st.acc.getD (vzero g.npix)
-  let out := List.zipWith (· * ·) out nz.flat
-  let out := List.zipWith (fun o z => o + nz.sigma * z) out (nz.draws st.nread)
-  ({ acc := none, nread := st.nread + 1 }, .image out)
-
-def nStep (g : Geom) (nz : Noise K) (st : NSt K) : Op K → NSt K × Obs K
-  | .integrate p dt w => nIntegrate g nz st p dt w
-  | .readOut => nReadOut g nz st
-
-def nRun (g : Geom) (nz : Noise K) : NSt K → List (Op K) → NSt K × List (Obs K)
-  | st, [] => (st, [])
-  | st, op :: ops =>
-    let r := nStep g nz st op
-    let rs := nRun g nz r.1 ops
-    (rs.1, r.2 :: rs.2)
-
 /-! ### the noisy detector with its parameters as mutable state (setters between operations)
 
 `flat_field`, `dark_current_rate`, `read_noise` and `include_photon_noise` are public attributes that
@@ -204,6 +166,38 @@ def pReads (g : Geom) : PSt K → List (POp K) → List (Bool × Obs K)
   | _, [] => []
   | st, .readOut :: ops => (st.off g, (pStep g st .readOut).2) :: pReads g (pStep g st .readOut).1 ops
   | st, op :: ops => pReads g (pStep g st op).1 ops
+
+/-- run a history of the noisy detector (with setters), collecting the observations; this is the
+fold of `pStep` the driver executes line by line -/
+def pRun (g : Geom) : PSt K → List (POp K) → PSt K × List (Obs K)
+  | st, [] => (st, [])
+  | st, op :: ops =>
+    let r := pStep g st op
+    let rs := pRun g r.1 ops
+    (rs.1, r.2 :: rs.2)
+
+/-- an `integrate` / `read_out` call as an operation of the noisy detector -/
+def lift : Op K → POp K
+  | .integrate p dt w => .integrate p dt w
+  | .readOut => .readOut
+
+/-- the state of `NoisyDetector(grid, dark_current_rate=dark, read_noise=0, flat_field=<map>,
+include_photon_noise=False)` right after construction (scalars broadcast to one value per pixel) -/
+def pInit (g : Geom) (dark : K) (flat : List K) : PSt K :=
+  { flat := flat, dark := List.replicate g.npix dark, sigma := vzero g.npix }
+
+/-- the freshly constructed noisy detector with every noise source off -/
+def allOff (g : Geom) : PSt K := pInit g 0 (List.replicate g.npix 1)
+
+/-- an operation that does not switch any noise source on: integrations, read-outs, and
+assignments of the "off" value of a parameter (unit flat field, zero dark current, zero read noise,
+no photon noise) -/
+def OffOp (g : Geom) : POp K → Bool
+  | .setFlat m => decide (m = List.replicate g.npix 1)
+  | .setDark d => decide (d = vzero g.npix)
+  | .setSigma s => decide (s = vzero g.npix)
+  | .setPhoton b => !b
+  | _ => true
 
 /-- forget the setters: the history a noiseless detector would see -/
 def strip : List (POp K) → List (Op K)
